@@ -3,7 +3,7 @@
    5ffa83c f1c6930 6b20ce1 6e7d0db 7e47af0 f599ad3 20777ed 24ba119 c0600cf) over Orm/SqlAlg.v (what the statement means on SQLite --
    compared, not proved); Spec: Orm/EqlToSqlSpec.v ([answers]).  Level: partial. *)
 From Coq Require Import List ZArith Bool.
-From Krrood Require Import Base.Sx Orm.EqlToSqlSpec Orm.SqlAlg Orm.EqlToSql Orm.EqlToSqlProofs.
+From Krrood Require Import Base.Sx Orm.EqlToSqlSpec Orm.SqlAlg Orm.EqlToSql Orm.EqlToSqlProofs Orm.EqlToSqlJoinProofs.
 Import ListNotations.
 Open Scope Z_scope.
 
@@ -25,26 +25,60 @@ Proof. exact the_agree. Qed.
 Theorem C07_accepts : forall sc q w, f07 sc q w = true -> exists s, translate sc q = TOk s.
 Proof. exact f07_accepted. Qed.
 
+(* TWO variables connected by equality joins (F07J): the selected variable sel : root and one other variable v2 : c2 (no table
+   shared with root); the condition is an and_/or_ tree of F07 atoms over sel and of equality joins sel.r1 == v2.r2 (either
+   order) between to-one relationships, as the repaired translator produces them -- the first join at conjunctive level is a JOIN
+   with the equality in ON, below an or_ the table is joined ON true and the equality is a condition, and when the table is joined
+   already the equality alone is the condition; on every pair (o, t) Python's == on the two related entities coincides with
+   equality of the foreign keys.  The statement returns one row per satisfying ASSIGNMENT (o, t), in the order of [answers]:
+   equality of lists, hence of multisets.  For a purely conjunctive condition these multiplicities are the in-memory
+   evaluator's (C02); when an equality join stands below an or_ the evaluator's multiplicities are its Union's (C02_refuted_union),
+   so only the SET statement C07_agree_join_set is claimed about the implementation there *)
+Theorem C07_agree_join : forall sc q w s,
+  translate sc q = TOk s -> f07j sc q w = true -> sem_res s (encode sc w) = answers sc q w.
+Proof. exact agree_join. Qed.
+Theorem C07_the_join : forall sc q w s,
+  translate sc q = TOk s -> f07j sc q w = true -> one_of (sem_res s (encode sc w)) = one_of (answers sc q w).
+Proof. exact the_agree_join. Qed.
+Theorem C07_agree_join_set : forall sc q w s l l',
+  translate sc q = TOk s -> f07j sc q w = true -> sem_res s (encode sc w) = Ok l -> answers sc q w = Ok l' ->
+  forall k, In k l <-> In k l'.
+Proof. exact agree_join_set. Qed.
+Theorem C07_accepts_join : forall sc q w, f07j sc q w = true -> exists s, translate sc q = TOk s.
+Proof. exact f07j_accepted. Qed.
+
+(* a to-one chain through a None reference is OUTSIDE F07: the rows of a statement are the concatenation of what each root row
+   contributes, and a root row whose foreign key for the first hop of a joined path is NULL contributes nothing, whatever the
+   WHERE clause says (inner join) -- while in memory the chain raises AttributeError, or, below an or_ whose other branch holds, is
+   never followed and the entity is returned (C07_refuted_noneref) *)
+Theorem C07_rows_by_root : forall s d l, sem s d = Some l -> l = flat_map (contribution s d) (d (s_root s)).
+Proof. exact sem_by_root. Qed.
+Theorem C07_noneref_drops : forall s d r js1 a tgt js2,
+  s_joins s = js1 ++ JRel 0%nat a tgt :: js2 -> col r a = VNull -> contribution s d r = [].
+Proof. exact noneref_drops. Qed.
+
 (* reject or agree.  (1) a condition containing a node kind the translator does not know (not_) never yields a statement *)
 Theorem C07_reject_or_agree : forall sc q c,
   q_cond q = Some c -> has_not c = true -> forall s, translate sc q <> TOk s.
 Proof. exact not_never_answered. Qed.
 (* (2) an attribute of a variable other than the selected one is rejected (was C07-a: translated as the selected one) *)
 Theorem C07_rejects_othervar : forall sc q op v ch lit,
-  q_cond q = Some (CCmp op (OAttr v ch) (OLit lit)) -> v <> q_sel q -> translate sc q = TReject.
+  q_setof q = false -> q_cond q = Some (CCmp op (OAttr v ch) (OLit lit)) -> v <> q_sel q -> translate sc q = TReject.
 Proof. exact rejects_othervar. Qed.
 Theorem C07_rejects_othervar_attr : forall sc sel root st v ch, v <> sel -> tattr sc sel root st v ch = RReject.
 Proof. exact tattr_othervar. Qed.
 (* (3) a relationship-valued operand against a plain literal / in a literal list is rejected (was C07-c) *)
 Theorem C07_rejects_rel_literal : forall sc q op v ch lit,
-  q_cond q = Some (CCmp op (OAttr v ch) (OLit lit)) -> is_rel sc (q_vars q) (OAttr v ch) = true -> translate sc q = TReject.
+  q_setof q = false -> q_cond q = Some (CCmp op (OAttr v ch) (OLit lit)) -> is_rel sc (q_vars q) (OAttr v ch) = true ->
+  translate sc q = TReject.
 Proof. exact rejects_rel_literal. Qed.
 Theorem C07_rejects_rel_in_list : forall sc q v ch cs,
-  q_cond q = Some (CContains (OList cs) (OAttr v ch)) -> is_rel sc (q_vars q) (OAttr v ch) = true -> translate sc q = TReject.
+  q_setof q = false -> q_cond q = Some (CContains (OList cs) (OAttr v ch)) -> is_rel sc (q_vars q) (OAttr v ch) = true ->
+  translate sc q = TReject.
 Proof. exact rejects_rel_in_list. Qed.
 (* (4) an attribute-equality join of two variables of the selected type is rejected (was C07-g) *)
 Theorem C07_rejects_selfjoin : forall sc q v1 ch1 v2 ch2 root a1 a2 t1 t2,
-  q_cond q = Some (CCmp OEq (OAttr v1 ch1) (OAttr v2 ch2)) -> v1 <> v2 ->
+  q_setof q = false -> q_cond q = Some (CCmp OEq (OAttr v1 ch1) (OAttr v2 ch2)) -> v1 <> v2 ->
   assoc (q_sel q) (q_vars q) = Some root -> assoc v1 (q_vars q) = Some root -> assoc v2 (q_vars q) = Some root ->
   last_of ch1 = Some a1 -> last_of ch2 = Some a2 ->
   field_kind sc root a1 = Some (FRel t1) -> field_kind sc root a2 = Some (FRel t2) ->
@@ -64,6 +98,15 @@ Proof. exact refuted_null. Qed.
 Theorem C07_refuted_valueeq :      (* related entities are compared by foreign key (identity), Python compares by __eq__ (value) *)
   model_res Wit.sc Wit.q_valueeq Wit.w = Some (Ok []) /\ answers Wit.sc Wit.q_valueeq Wit.w = Ok [10].
 Proof. exact refuted_valueeq. Qed.
+
+Theorem C07_refuted_noneref :      (* a None reference on a chain: dropped by the inner join; memory returns the entity (below or_) or raises *)
+  (model_res Wit.sc WitJ.q_noneref_or WitJ.wn = Some (Ok [6]) /\ answers Wit.sc WitJ.q_noneref_or WitJ.wn = Ok [5; 6]) /\
+  (model_res Wit.sc WitJ.q_noneref WitJ.wn = Some (Ok [6]) /\ answers Wit.sc WitJ.q_noneref WitJ.wn = Err AttrErr) /\
+  f07 Wit.sc WitJ.q_noneref_or WitJ.wn = false.
+Proof. exact refuted_noneref. Qed.
+Theorem C07_refuted_setof :        (* set_of([p], ...): AttributeError escapes eql_to_sql instead of an EQLTranslationError *)
+  translate Wit.sc WitJ.q_setof = TCrash /\ answers Wit.sc WitJ.q_setof Wit.w = Ok [1].
+Proof. exact refuted_setof. Qed.
 
 (* regression: the witnesses of the repaired classes: C07-a, -c, -e, -f, -g are rejected; C07-d (substring), C07-b (!= with None),
    C07-h (str column as condition), C07-i (two equality joins onto one table) agree *)
@@ -93,9 +136,32 @@ Example C07_nonvacuous_null :
   f07 Wit.sc Wit.q_null_lt Wit.w = false.
 Proof. exact nonvacuous_null. Qed.
 
+(* non-vacuity of F07J: a join alone, next to and below or_ with a comparison, two joins onto one table, an entity with two
+   partners (twice in both lists, the(...) fails on both sides); two distinct entities equal by value are excluded and refute *)
+Example C07_nonvacuous_join :
+  f07j Wit.sc WitJ.q_join Wit.w = true /\ model_res Wit.sc WitJ.q_join Wit.w = Some (Ok [10; 11]) /\
+  f07j Wit.sc WitJ.q_join_and Wit.w = true /\ model_res Wit.sc WitJ.q_join_and Wit.w = Some (Ok [11]) /\
+  answers Wit.sc WitJ.q_join_and Wit.w = Ok [11] /\
+  f07j Wit.sc WitJ.q_join_or Wit.w = true /\ model_res Wit.sc WitJ.q_join_or Wit.w = Some (Ok [10; 11]) /\
+  answers Wit.sc WitJ.q_join_or Wit.w = Ok [10; 11] /\
+  f07j Wit.sc Wit.q_eqjoin_twice Wit.w = true /\
+  f07j Wit.sc WitJ.q_join WitJ.w2 = true /\ model_res Wit.sc WitJ.q_join WitJ.w2 = Some (Ok [10; 10; 11; 11]) /\
+  answers Wit.sc WitJ.q_join WitJ.w2 = Ok [10; 10; 11; 11] /\
+  option_map one_of (model_res Wit.sc WitJ.q_join_the WitJ.w2) = Some MultipleFound /\
+  one_of (answers Wit.sc WitJ.q_join_the WitJ.w2) = MultipleFound /\
+  f07j Wit.sc WitJ.q_join_valueeq Wit.w = false /\
+  model_res Wit.sc WitJ.q_join_valueeq Wit.w = Some (Ok []) /\ answers Wit.sc WitJ.q_join_valueeq Wit.w = Ok [10].
+Proof. exact nonvacuous_join. Qed.
+
 Print Assumptions C07_agree.
 Print Assumptions C07_the.
 Print Assumptions C07_accepts.
+Print Assumptions C07_agree_join.
+Print Assumptions C07_the_join.
+Print Assumptions C07_agree_join_set.
+Print Assumptions C07_accepts_join.
+Print Assumptions C07_rows_by_root.
+Print Assumptions C07_noneref_drops.
 Print Assumptions C07_reject_or_agree.
 Print Assumptions C07_rejects_othervar.
 Print Assumptions C07_rejects_othervar_attr.
@@ -105,3 +171,5 @@ Print Assumptions C07_rejects_selfjoin.
 Print Assumptions C07_rejects_none_order.
 Print Assumptions C07_refuted_null.
 Print Assumptions C07_refuted_valueeq.
+Print Assumptions C07_refuted_noneref.
+Print Assumptions C07_refuted_setof.
